@@ -11,6 +11,7 @@ Actions (JSON lists):
   ["junk", n]                                allocate and keep n small objects (shifts addresses)
   ["env", kind]                              formatter environment fault from here on (see FaultEnv)
   ["drop", cid]                              forget a context and its requests, then gc.collect()
+  ["deep", n, action]                        run action from n extra Python frames (little interpreter stack left)
   ["fault", k, action]                       run action, raise InjectedFault at the k-th line event
                                              inside functional_algorithms/**
 """
@@ -136,6 +137,9 @@ def gen_history(seed, universe, cfg):
             else:
                 acts = [["ctx", cid, t]]
             acts += steps(rid, cid, r, debug, tag, False, raw)
+            if cfg.get("deep_stack") and rq.random() < cfg["deep_stack"]:
+                depth = rq.randint(880, 990)
+                acts = [["deep", depth, x] if x[0] in ("expand", "simplify") else x for x in acts]
             while rq.random() < p_repeat and len(acts) < 14:
                 if rq.random() < 0.5:
                     acts.append(["print", rid, debug, tag] + (["raw"] if raw else []))
@@ -205,7 +209,7 @@ FAKE_BIN = os.path.join(os.path.dirname(os.path.abspath(__file__)), "fakebin")
 class FaultEnv:
     """Crash-type faults on the file/subprocess seam of utils.format_cpp / format_python."""
 
-    KINDS = ["clang_absent", "clang_exit1", "clang_killed", "clang_noisy", "tmpdir_unwritable", "black_unimportable"]
+    KINDS = ["clang_absent", "clang_exit1", "clang_killed", "clang_noisy", "clang_partial", "tmpdir_unwritable", "black_unimportable"]
 
     def __init__(self):
         self.saved_path = os.environ.get("PATH", "")
@@ -223,8 +227,9 @@ class FaultEnv:
         elif kind in ("clang_exit1", "clang_killed"):
             os.environ["FAKE_CLANG_FORMAT"] = kind
             os.environ["PATH"] = os.path.join(FAKE_BIN, "clang") + ":/usr/bin:/bin"
-        elif kind == "clang_noisy":
-            # not a crash: the formatter works, but writes a warning to stderr first
+        elif kind in ("clang_noisy", "clang_partial"):
+            # noisy: the formatter works, but writes a warning to stderr first;
+            # partial: it dies with a non-zero status after writing half of its output
             import shutil
 
             real = shutil.which("clang-format", path=self.saved_path)
@@ -232,7 +237,7 @@ class FaultEnv:
                 self.active = None
                 return
             os.environ["REAL_CLANG_FORMAT"] = real
-            os.environ["PATH"] = os.path.join(FAKE_BIN, "noisy") + ":" + self.saved_path
+            os.environ["PATH"] = os.path.join(FAKE_BIN, kind[6:]) + ":" + self.saved_path
         elif kind == "tmpdir_unwritable":
             os.environ["TMPDIR"] = "/proc/nonexistent-dir-for-verif"
             tempfile.tempdir = "/proc/nonexistent-dir-for-verif"
@@ -344,6 +349,25 @@ class Executor:
         op = a[0]
         if op == "fault":
             return self.action(a[2], fault=a[1])
+        if op == "deep":
+            # the same action issued from `depth` extra Python frames: how much interpreter stack is left is an
+            # input nobody passes explicitly (a RecursionError is a failed request, like any other exception)
+            def down(n):
+                if n <= 0:
+                    return self.action(a[2], fault)
+                return down(n - 1)
+
+            self.bump(self.probes, "request_step_issued_from_a_deep_stack")
+            try:
+                return down(a[1])
+            except RecursionError:
+                # ran out of stack in the harness' own frames or in the package: a failed request
+                inner = a[2][2] if a[2][0] == "fault" else a[2]
+                req = self.reqs.get(inner[1]) if len(inner) > 1 else None
+                if req is not None:
+                    req["stage"] = "dead"
+                self.bump(self.stats, "deep_request_ran_out_of_stack")
+                return None
         fa = self.fa
         self.log.ev("act", op, a[1] if len(a) > 1 and isinstance(a[1], (str, int)) else None)
         if op == "ctx":
